@@ -179,6 +179,11 @@ struct UnknownSymbolError : public Error {
     Error(location, (boost::format("could not find symbol %s") % name).str()) {}
 };
 
+struct RedefinedSymbolError : public Error {
+  RedefinedSymbolError(Location location, std::string name) :
+    Error(location, (boost::format("symbol %s is already defined in this scope") % name).str()) {}
+};
+
 struct NonConstValError : public Error {
   NonConstValError(Location location, std::string name) :
     Error(location, (boost::format("val %s is not constant") % name).str()) {}
@@ -1752,6 +1757,11 @@ class SymbolTable {
 public:
   void insert(SymbolIDRef identifier, std::unique_ptr<Symbol> symbol) {
     //std::cout << "insert " << identifier.first << ", " << identifier.second <<"\n";
+    // A second definition must not replace (and free) a symbol that
+    // directives may already refer to.
+    if (symbolMap.count(identifier) != 0) {
+      throw RedefinedSymbolError(symbol->getNode()->getLocation(), identifier.second);
+    }
     symbolMap[identifier] = std::move(symbol);
   }
 
